@@ -31,7 +31,7 @@ func xseg(n string) *pexpr    { return &pexpr{kind: "seg", name: n} }
 func xseq(a, b *pexpr) *pexpr { return &pexpr{kind: "seq", a: a, b: b} }
 func xalt(a, b *pexpr) *pexpr { return &pexpr{kind: "alt", a: a, b: b} }
 
-func xpath(names ...string) *pexpr {
+func xpathOf(names ...string) *pexpr {
 	e := xseg(names[0])
 	for _, n := range names[1:] {
 		e = xseq(e, xseg(n))
@@ -216,11 +216,11 @@ func (g *c07gen) expr() *pexpr {
 	r := g.r
 	switch r.Intn(7) {
 	case 0, 1:
-		return xpath(g.somePath()...)
+		return xpathOf(g.somePath()...)
 	case 2:
-		return xalt(xpath(g.somePath()...), xpath(g.somePath()...))
+		return xalt(xpathOf(g.somePath()...), xpathOf(g.somePath()...))
 	case 3:
-		return xalt(xpath(g.somePath()...), xalt(xpath(g.somePath()...), xpath(g.somePath()...)))
+		return xalt(xpathOf(g.somePath()...), xalt(xpathOf(g.somePath()...), xpathOf(g.somePath()...)))
 	}
 	// group: pick a path with at least 2 segments and branch at some level over siblings
 	var deep [][]string
@@ -230,7 +230,7 @@ func (g *c07gen) expr() *pexpr {
 		}
 	}
 	if len(deep) == 0 {
-		return xalt(xpath(g.somePath()...), xpath(g.somePath()...))
+		return xalt(xpathOf(g.somePath()...), xpathOf(g.somePath()...))
 	}
 	p := gen.Pick(r, deep)
 	cut := 1 + r.Intn(len(p)-1) // branch after p[:cut]
@@ -251,17 +251,17 @@ func (g *c07gen) expr() *pexpr {
 	var group *pexpr
 	if r.Chance(1, 3) && len(p) > cut+1 {
 		// one alternative continues deeper: a/(b/c;d)
-		group = xalt(xpath(p[cut:]...), xseg(b))
+		group = xalt(xpathOf(p[cut:]...), xseg(b))
 	} else {
 		group = xalt(xseg(a), xseg(b))
 	}
 	var e *pexpr
 	if r.Chance(1, 8) {
 		// leading group: (a;b)/x
-		e = xseq(xalt(xseg(p[0]), xseg(gen.Pick(r, g.paths)[0])), xpath(p[1:]...))
+		e = xseq(xalt(xseg(p[0]), xseg(gen.Pick(r, g.paths)[0])), xpathOf(p[1:]...))
 		return e
 	}
-	e = xseq(xpath(p[:cut]...), group)
+	e = xseq(xpathOf(p[:cut]...), group)
 	if r.Chance(1, 3) {
 		// something after the group: a/(b;c)/x
 		var tails []string
@@ -280,7 +280,7 @@ func (g *c07gen) expr() *pexpr {
 		}
 	}
 	if r.Chance(1, 5) {
-		e = xalt(e, xpath(g.somePath()...))
+		e = xalt(e, xpathOf(g.somePath()...))
 	}
 	return e
 }
@@ -365,9 +365,9 @@ func (g *c07gen) windowFor(p []string, w int) qparam {
 	}
 	var e *pexpr
 	if g.r.Chance(1, 6) && len(g.lists) > 1 {
-		e = xalt(xpath(p...), xpath(gen.Pick(g.r, g.lists)...))
+		e = xalt(xpathOf(p...), xpathOf(gen.Pick(g.r, g.lists)...))
 	} else {
-		e = xpath(p...)
+		e = xpathOf(p...)
 	}
 	v := e.print(false) + "!" + fmt.Sprint(st)
 	if open {
@@ -634,7 +634,7 @@ func C07(ctx *core.Ctx) error {
 				if !ctx.Thorough() && i%4 != int(ctx.Seed%4) {
 					continue
 				}
-				e := xpath(p...)
+				e := xpathOf(p...)
 				if err := add("fields-path", qparam{name: "fields", value: e.print(false), ast: e}); err != nil {
 					return err
 				}
